@@ -1,6 +1,9 @@
-From SplVerif Require Import Lib.Base Resolution.Seeds Resolution.Account Resolution.Proofs Props.C07.
+From SplVerif Require Import Lib.Base Tlv.Model Resolution.Seeds Resolution.Account Resolution.Proofs MetaList.Model MetaList.Stored Props.C07.
 Local Open Scope N_scope.
 (* PINS *)
 Check C07_iff : forall find_pda cfgs ix pid accounts, check_accounts find_pda cfgs ix pid accounts = Ok tt <-> ((length cfgs <= length accounts)%nat /\ forall i c, nth_error cfgs i = Some c -> position_ok find_pda c ix pid accounts (length accounts - length cfgs + i)).
 Check C07_total : forall find_pda cfgs ix pid accounts, Forall (fun c => length (e_cfg c) = 32%nat) cfgs -> check_accounts find_pda cfgs ix pid accounts <> Panic.
 Check C07_short_list : forall find_pda cfgs ix pid accounts, (length accounts < length cfgs)%nat -> check_accounts find_pda cfgs ix pid accounts <> Ok tt.
+Check C07_total_any_bytes : forall find_pda data t ix pid accounts, check_account_infos find_pda data t ix pid accounts <> Panic.
+Check C07_iff_from_bytes : forall find_pda data t ix pid accounts, check_account_infos find_pda data t ix pid accounts = Ok tt <-> exists cfgs, ml_reload data t = Ok cfgs /\ (length cfgs <= length accounts)%nat /\ forall i c, nth_error cfgs i = Some c -> position_ok find_pda c ix pid accounts (length accounts - length cfgs + i).
+Check C07_changed_triple_rejected : forall find_pda cfgs ix pid accounts i c m a, (length cfgs <= length accounts)%nat -> nth_error cfgs i = Some c -> resolve find_pda c ix pid (info_getter accounts) = Ok m -> nth_error accounts (length accounts - length cfgs + i) = Some a -> (i_key a <> m_key m \/ i_signer a <> m_signer m \/ i_writable a <> m_writable m) -> check_accounts find_pda cfgs ix pid accounts <> Ok tt.
